@@ -26,15 +26,26 @@ class Defs:
         self.vararg = a.vararg.arg if a.vararg else None
         self.kwarg = a.kwarg.arg if a.kwarg else None
         self.defs: dict[str, list] = {}
+        self.kinds: dict[str, list] = {}  # parallel to defs: "assign" | "aug" | "loop" | "with" | "comp" | "walrus" | "store" | "unpack"
         self._mut = None
+        self._kind = "assign"
         self._collect(func_node)
 
-    def _bind(self, target, value):
+    def _bind(self, target, value, kind=None):
         for n in ast.walk(target):
             if isinstance(n, ast.Name):
                 self.defs.setdefault(n.id, []).append(value)
+                self.kinds.setdefault(n.id, []).append(kind or self._kind)
             elif isinstance(n, ast.Starred):
                 continue
+
+    def plain_single_def(self, name):
+        """The value of ``name`` when it is bound exactly once, by a plain ``name = value`` assignment (not a loop /
+        with / comprehension target, not an unpacking, never augmented or stored into); else None."""
+        vs, ks = self.defs.get(name, []), self.kinds.get(name, [])
+        if len(vs) == 1 and ks == ["assign"] and name not in self.params:
+            return vs[0]
+        return None
 
     def _collect(self, root):
         for n in ast.walk(root):
@@ -42,22 +53,25 @@ class Defs:
                 # nested scopes share names conservatively: treat their bindings as bindings here
                 pass
             if isinstance(n, ast.Assign):
+                self._kind = "assign"
                 for t in n.targets:
                     self._bind_target(t, n.value)
             elif isinstance(n, ast.AnnAssign) and n.value is not None:
+                self._kind = "assign"
                 self._bind_target(n.target, n.value)
             elif isinstance(n, ast.AugAssign):
+                self._kind = "aug"
                 self._bind_target(n.target, n.value)
             elif isinstance(n, (ast.For, ast.AsyncFor)):
-                self._bind(n.target, n.iter)
+                self._bind(n.target, n.iter, "loop")
             elif isinstance(n, ast.comprehension):
-                self._bind(n.target, n.iter)
+                self._bind(n.target, n.iter, "comp")
             elif isinstance(n, (ast.With, ast.AsyncWith)):
                 for it in n.items:
                     if it.optional_vars is not None:
-                        self._bind(it.optional_vars, it.context_expr)
+                        self._bind(it.optional_vars, it.context_expr, "with")
             elif isinstance(n, ast.NamedExpr):
-                self._bind(n.target, n.value)
+                self._bind(n.target, n.value, "walrus")
 
     def _bind_target(self, target, value):
         # container mutation through subscript/attribute stores also (re)defines the base name
@@ -67,12 +81,13 @@ class Defs:
                 base = base.value
             if isinstance(base, ast.Name):
                 self.defs.setdefault(base.id, []).append(value)
+                self.kinds.setdefault(base.id, []).append("store")
             return
         if isinstance(target, (ast.Tuple, ast.List)) and isinstance(value, (ast.Tuple, ast.List)) and len(target.elts) == len(value.elts) and not any(isinstance(e, ast.Starred) for e in target.elts + value.elts):
             for t, v in zip(target.elts, value.elts):
                 self._bind_target(t, v)
             return
-        self._bind(target, value)
+        self._bind(target, value, "unpack" if isinstance(target, (ast.Tuple, ast.List)) and self._kind == "assign" else None)
 
     def mutations(self, name):
         """Values appended/updated into a local container: x.append(v), x.extend(v), x.update(v), x[k] = v."""
